@@ -220,7 +220,7 @@ func main() {
 
 	nscen, nops, sample := 14, 9, 40
 	if c.Thorough() {
-		nscen, nops, sample = 150, 16, 120
+		nscen, nops, sample = 300, 16, 120
 	}
 	r := hx.NewRNG(c.Seed)
 	if os.Getenv("C08_SCENARIOS") != "" {
